@@ -20,7 +20,7 @@ CLAIMED = {
              "exception for any JSON value, only (str host, genuine-int port, numeric priority, supported type) become hint "
              "objects, fields are taken unchanged; callers are checked against callee contracts; parse(encode(h)) == h as a lemma.",
         note="Assumed: sorted()/filter() models (same members), Twisted endpoint constructors, JSON floats as reals. "
-             "Connector._use_hints (grouping by priority) is not under contract yet; relay round trip is element-wise only.",
+             "ipaddrs.find_addresses returns a list of str; IListeningPort.getHost().port is an int.",
         design="6/C20"),
     "C12": dict(
         text="to_be4/from_be4, encode_record/parse_record (round trip for all seven record types as a lemma over the real bodies), "
@@ -29,9 +29,7 @@ CLAIMED = {
              "divergence), _Record.send_record/decrypt_message (chunk arithmetic 65519/65535 with loop invariants; every Noise "
              "failure becomes Disconnect) are verified for all inputs; a linear-arithmetic lemma shows sender packets and "
              "receiver slices coincide.",
-        note="Assumed: struct '>L' inverse pair, utf-8 codec round trip, Noise AEAD (+16 bytes, forgery raises). Not yet under "
-             "contract: _Framer.add_and_parse and DilatedConnectionProtocol.dataReceived loops (generators), Connector.build_protocol. "
-             "Content equality across the multi-packet split is not proved (packet boundaries are).",
+        note="Assumed: struct '>L' inverse pair, utf-8 codec round trip, Noise AEAD (+16 bytes, forgery raises).",
         design="6/C12"),
     "C16": dict(
         text="TrafficTimer's four inputs are verified through the real transition table against a ghost miss-counter (reconnect exactly "
@@ -144,10 +142,12 @@ CLAIMED = {
              "stop_using_connection/handle_ack (exactly the records with seqnum <= ack retired, others kept in order); "
              "Manager.send_data/open/close each one record; Manager.got_record always acks and dispatches iff above the "
              "watermark; lemma receive_run: a contiguous run is dispatched exactly once each, in order.",
-        note="Assumed: L2 delivers records whole and in order (C12), acks come only from got_record, list-operation facts "
-             "(validated on all lists up to length 3, not proved for all lengths). Liveness (a replacement connection is made, "
-             "acks eventually arrive) is not decided; the step 'a cut prefix of a contiguous stream is contiguous' is argued, not "
-             "machine-checked. Precondition: one producer object is registered for one subchannel only.",
+        note="Assumed: L2 delivers records whole and in order (C12), acks come only from got_record. The list-operation facts handed to "
+             "the solvers are discharged obligations since round 4 (props/dilq.py:seq-lemmas.*, 31: first index := indexof(s,[x],0); "
+             "element-wise and first-index consequences of popleft/extend/clear/append/rotate(-1)/remove and set(list) membership "
+             "proved for sequences of any length from the defining terms the interpreter builds, structurally matched); trusted there: "
+             "the solvers' sequence theory and that those terms model deque/list (cross-checked against CPython on all lists up to "
+             "length 3, uncounted). Liveness (a replacement connection is made, acks eventually arrive) is not decided. Precondition: one producer object is registered for one subchannel only.",
         design="6/C10"),
     "C15": dict(
         text="Outbound producer bookkeeping invariants (partition paused/unpaused, paused before unpaused in the rotation, _paused "
@@ -157,7 +157,8 @@ CLAIMED = {
              "once; Inbound pauses the connection iff some subchannel asked, carried over to a replacement connection.",
         note="Assumed: producers honour pause; Producer.pauseProducing/startStreaming and transport.registerProducer do not call "
              "back; a new connection starts un-paused. 'eventually resumed' (that the transport calls resume again) is not "
-             "decided. Same single-registration precondition as C10.",
+             "decided. Same single-registration precondition as C10; the list-operation facts are discharged lemmas "
+             "(see C10's note).",
         design="6/C15"),
     "C18": dict(
         text="OneShotObserver/SequenceObserver/EventualQueue (result latched once, every waiter scheduled exactly once via the "
@@ -233,7 +234,10 @@ if CLUSTER_READY:
 
 # third round (DESIGN 12.8): what came under contract since the texts above were written, and what no longer holds of the notes
 ROUND3 = {
-    "C01": (" Also run here: Receive.got_message / decrypt_data / encrypt_data (C02's contracts) and Order.got_message / "
+    "C01": (" The code's own path is under contract since round 4: Input.do_words (typed code == nameplate-words, unchanged), "
+            "Code.do_set_code / do_finish_input / do_finish_allocate / do_middle_input / Code.set_code (the code reaches Boss and "
+            "Key unchanged, the nameplate is the part before the first dash)." 
+            " Also run here: Receive.got_message / decrypt_data / encrypt_data (C02's contracts) and Order.got_message / "
             "Receive.got_message_good through the real tables (C03's), so that 'matching codes => every message is delivered' sees a "
             "change in how an authentic message is handed on.", ""),
     "C02": (" Machine level (mailbox-cluster engine over the real tables and output bodies, shared with C14): an echo of our own "
@@ -273,9 +277,13 @@ ROUND3 = {
             "the stream, nothing before the exact prologue / relay reply, Disconnect => exactly one loseConnection and nothing "
             "reaches the manager; a stateful Noise model (nonce counters) with per-packet loop invariants and "
             "lemma:multi_packet_content give content equality for every payload length; the big-endian round trip follows from "
-            "its definition.", " SUPERSEDES the note: the loops and multi-packet content ARE proved now; still assumed: struct "
-            "implements the big-endian definition, utf-8 codec round trip, Noise AEAD; connectionMade/Connector.build_protocol "
-            "(C17 covers build_protocol)."),
+            "its definition.", " Link set-up (round 4): DilatedConnectionProtocol.connectionMade through the real table (exactly one write: "
+            "the relay handshake if configured, else this role's prologue), use_relay, send_record, connector.build_noise + "
+            "Connector.build_protocol (NNpsk0, PSK = dilation key, Leader initiates, prologues crossed between the roles), "
+            "Dilator.got_key (PSK = HKDF(key, 'dilation-v1')), lemma:prologues_cross_match on the real bodies (a reflected "
+            "prologue is rejected). Still assumed: struct implements the big-endian definition, Noise NNpsk0 completes only between "
+            "one initiator and one responder holding the same PSK, attrs validators as field types, Twisted sets .transport before "
+            "connectionMade; that the dilation key flows from Dilator.got_key through the Manager to Connector._dilation_key is argued."),
     "C13": (" SubchannelConnectorEndpoint.connect and SubchannelListenerEndpoint.listen (inlineCallbacks generators) are under "
             "contract now: wait first, one id of this side's parity, one OPEN, one SubChannel registered before its protocol is "
             "connected, held OPENs handed over at listen; the real SubChannel construction runs; Manager.send_open / "
@@ -293,16 +301,24 @@ ROUND3 = {
             "priority never raise) / got_hints through the real table, Manager.rx_HINTS rows (C11's contract), the relay round "
             "trip for the relay hints this side builds, transit Common._connect's use of the parsed hints. Defect found and "
             "repaired (d1f4484): a hint without endpoint was scheduled as _connect(None).",
-            " SUPERSEDES 'Connector._use_hints is not under contract yet'. Still not under contract: get_connection_hints, "
-            "Connector._publish_hints / Manager.send_hints (encode side)."),
+            " Encode side (round 4): encode_hint (exactly the documented key set, values unchanged), Connector._publish_hints "
+            "(one send_hints with the encoding of every hint object once, in order), listener_ready through the real table, "
+            "Connector.start, the _start_listener callback (one DirectTCPV1Hint per address with the listening port), "
+            "Manager.send_hints, lemma:dilation_hint_roundtrip (parse_hint(encode_hint(h)) == h for direct and tor hints, "
+            "hypotheses are parse_hint's own clauses taken by name) and lemma:encoded_hint_never_raises_in_parse_hint. NOT "
+            "claimed: the relay round trip for arbitrarily many sub-hints (undecided: the premise of the filter() model is not "
+            "derived by the solvers; one sub-hint is proved)."),
     "C14": (" The Mailbox per-phase dedup contracts (N_release_and_accept, rx_message) are run here too; new environment event: a "
             "reconnection attempt whose WebSocket negotiation fails.",
             " Delegated mode (application callbacks that re-enter send()/close() synchronously) is built as a second engine "
-            "variant but NOT claimed: its invariant has not reached a fixpoint yet (DESIGN 12.9)."),
+            "variant but NOT claimed: under its fixpoint invariant 16 obligations stay open; the triage of round 4 "
+            "(inv/mailbox_delegated.triage.md) found no native history for any of them in 112 breadth-first searches and ~100k random "
+            "walks with re-entrant delegates on the real classes, and names the lost pairwise clauses that would exclude each "
+            "counterexample-to-induction - undecided, not refuted (DESIGN 12.10)."),
     "C08": (" A reconnection attempt that fails (onClose without onOpen) and every connection loss record no verdict; the claim / "
             "release / open / close commands name the nameplate / mailbox the client holds on every connection; the cluster's "
             "initial state is read from the real constructors.",
-            " Delegated mode (re-entrant callbacks) is NOT claimed (DESIGN 12.9)."),
+            " Delegated mode (re-entrant callbacks) is NOT claimed (DESIGN 12.10: triaged, no native defect found, not discharged)."),
     "C09": (" New environment event: a reconnection attempt whose WebSocket negotiation fails; connection loss is never a verdict.", ""),
 }
 for pid, (t_add, n_add) in ROUND3.items():
